@@ -122,17 +122,42 @@ def check(idx: Index, rep: Report, tier: str) -> str:
     r = rep.rule("C16.R4", "range folding re-checks before every fold that the induction variable has exactly one use", floor=1)
     f = idx.func(RF, "ScfForLoopRangeFolding.match_and_rewrite")
     cfg = CFG(f.node)
-    ws = [w for w in walk_local(f.node) if isinstance(w, ast.While)]
-    if len(ws) != 1:
-        raise AnalysisError(f"{f.fq}: fold loop not found")
-    w = ws[0]
-    users = [c for c in calls_in(w) if unparse(c) == "next(iter(index.uses))"]
-    tests = [n for n in walk_local(w) if isinstance(n, ast.If) and "index.has_one_use()" in unparse(n.test)]
-    if not users:
-        raise AnalysisError(f"{f.fq}: user extraction not found")
-    tn = {cfg.node_of(t.test) for t in tests}
-    head = cfg.node_of(w.test)
-    per_iter = bool(tn) and all(cfg.path_avoiding(head, cfg.node_of(u), lambda n: n.id in tn, follow_exc=False) is None for u in users)
+    ivs = [n.targets[0].id for n in walk_local(f.node) if isinstance(n, ast.Assign) and isinstance(n.targets[0], ast.Name) and re.fullmatch(r"\w+\.body\.block\.args\[0\]|\w+\.body\.blocks?\[0\]\.args\[0\]|\w+\.body\.first_block\.args\[0\]", unparse(n.value))]
+    if len(ivs) != 1:
+        raise AnalysisError(f"{f.fq}: induction variable binding not found")
+    iv = ivs[0]
+    folds = [c for c in calls_in(f.node) if unparse(c.func) in ("rewriter.replace", "rewriter.replace_op", "rewriter.replace_matched_op", "rewriter.replace_all_uses_with") and any(isinstance(x, ast.Name) and x.id == iv for a_ in c.args[1:] for x in ast.walk(a_))]
+    if not folds:
+        raise AnalysisError(f"{f.fq}: the fold (replacement of the user's result by the induction variable) not found")
+    from ..astutil import conjuncts
+
+    def establishes(n: int, m: int, lab) -> bool:
+        """the edge n -> m is taken only when the induction variable has exactly one use"""
+        a_ = cfg.nodes[n].ast
+        if a_ is None or lab not in ("T", "F") or not isinstance(a_, ast.expr):
+            return False
+        for atom, truth in conjuncts(a_, lab == "T"):
+            t_ = unparse(atom.value if isinstance(atom, ast.NamedExpr) else atom)
+            if truth and t_ == f"{iv}.has_one_use()":
+                return True
+            if truth and re.fullmatch(rf"len\({iv}\.uses\) == 1|{iv}\.uses\.get_length\(\) == 1|1 == len\({iv}\.uses\)", t_):
+                return True
+            if (not truth) and re.fullmatch(rf"len\({iv}\.uses\) != 1|{iv}\.uses\.get_length\(\) != 1", t_):
+                return True
+            mm = re.fullmatch(rf"(?:\(?\w+ := )?{iv}\.get_user_of_unique_use\(\)\)? is (not )?None", t_)
+            if mm and (truth == bool(mm.group(1))):
+                return True
+        return False
+
+    fn_ = {cfg.node_of(c) for c in folds}
+    ok_edge = lambda n, m, lab: not establishes(n, m, lab)
+    per_iter = all(cfg.path_avoiding(cfg.entry, x, lambda n: False, follow_exc=False, edge_ok=ok_edge) is None for x in fn_)
+    for x in fn_:
+        for m_, lab_ in cfg.succ[x]:
+            if lab_ in ("exc", "assert") or not ok_edge(x, m_, lab_):
+                continue
+            if any(m_ == y or cfg.path_avoiding(m_, y, lambda n: False, follow_exc=False, edge_ok=ok_edge) is not None for y in fn_):
+                per_iter = False
     if per_iter:
         r.ok(f.fq, f"{f.loc} has_one_use() tested in every iteration before the user is folded")
     else:
@@ -172,6 +197,45 @@ def check(idx: Index, rep: Report, tier: str) -> str:
         r.ok(f.fq + ":results", f"{f.loc} one affine_expr_ops per result expression")
     else:
         raise AnalysisError(f"{f.fq}: loop over {mapn}.data.results with affine_expr_ops not found")
+
+    # ---- R6: desymref forwards every read to the first one only when all reads precede all writes
+    r = rep.rule("C16.R6", "symref elimination forwards all fetches of a symbol to the first fetch only when there is no update or the last fetch precedes the first update", floor=1)
+    f = idx.func("xdsl/transforms/desymref.py", "Desymrefier.prune_uses_without_definitions")
+    fwd = []
+    for w in walk_local(f.node):
+        if isinstance(w, ast.For) and isinstance(w.iter, ast.Subscript) and isinstance(w.iter.value, ast.Name) and unparse(w.iter.slice) == "1:":
+            seq = w.iter.value.id
+            if any(call_attr(c) in ("replace_op", "replace_all_uses_with", "replace_by") and f"{seq}[0]" in unparse(c) for c in calls_in(w)):
+                fwd.append((w, seq))
+    if not fwd:
+        raise AnalysisError(f"{f.fq}: forwarding of the later fetches to the first one not found")
+    for w, reads in fwd:
+        back = {unparse(n.value): n.targets[0].id for n in walk_local(f.node) if isinstance(n, ast.Assign) and isinstance(n.targets[0], ast.Name) and isinstance(n.value, ast.ListComp)}
+
+        def _back(t_: str) -> str:
+            for k_, v_ in back.items():
+                t_ = t_.replace(k_, v_)
+            return t_
+
+        nf = {(_back(t_), p_) for t_, p_ in norm_facts(text_facts(f.node, w))}
+        # the other sequence: the updates of the same symbol (the list comprehension over UpdateOp)
+        wr = [n.targets[0].id for n in walk_local(f.node) if isinstance(n, ast.Assign) and isinstance(n.targets[0], ast.Name) and "UpdateOp" in unparse(n.value) and isinstance(n.value, ast.ListComp)]
+        if len(wr) != 1:
+            raise AnalysisError(f"{f.fq}: list of the updates of the symbol not found")
+        writes = wr[0]
+        inst = f"{f.fq}:forward@{w.lineno}"
+        if (f"len({writes}) == 0", True) in nf or (writes, False) in nf:
+            r.ok(inst, f"{f.module.relpath}:{w.lineno} no update of the symbol in the block")
+            continue
+        cmpf = [(t_, p_) for t_, p_ in nf if "get_operation_index" in t_ and re.search(r" (<|>|<=|>=) ", t_)]
+        good = {(f"block.get_operation_index({reads}[-1]) < block.get_operation_index({writes}[0])", True), (f"block.get_operation_index({writes}[0]) > block.get_operation_index({reads}[-1])", True),
+                (f"block.get_operation_index({reads}[-1]) >= block.get_operation_index({writes}[0])", False), (f"block.get_operation_index({writes}[0]) <= block.get_operation_index({reads}[-1])", False)}
+        if set(cmpf) & good:
+            r.ok(inst, f"{f.module.relpath}:{w.lineno} under `last fetch before first update`")
+        elif cmpf and all(re.fullmatch(rf"block\.get_operation_index\(({reads}|{writes})\[(0|-1)\]\) (<|>|<=|>=) block\.get_operation_index\(({reads}|{writes})\[(0|-1)\]\)", t_) for t_, _ in cmpf):
+            r.fail(inst, Finding("C16.R6", f.fq, "disjointness-test", f"the later fetches of a symbol are forwarded to the first fetch under `{cmpf[0][0]}` ({cmpf[0][1]}), which does not say that the *last* fetch precedes the *first* update: in fetch / update / fetch the second fetch receives the value from before the update", f"{f.module.relpath}:{w.lineno}"))
+        else:
+            raise AnalysisError(f"{f.fq}: guard of the forwarding loop at line {w.lineno} not understood: {sorted(nf)[:4]}")
 
     return (
         "Guarded-action rules on the two code-motion transformations (LICM, control-flow hoist) and two structural rules on "
